@@ -29,8 +29,8 @@ def main():
         viols = mod.run(tier, seed, ev) or []
     except V.HarnessError as e:
         import re
-        if re.search(r"==\d+==ABORTING|SUMMARY: \w+Sanitizer|ERROR: \w+Sanitizer|^lha .* died\b", str(e)):
-            # not a failure of the machinery: a run of the code under test died (a sanitizer report, or the tool killed by a signal) at a place where the check only
+        if re.search(r"==\d+==ABORTING|SUMMARY: \w+Sanitizer|ERROR: \w+Sanitizer|^lha .* died\b|generator wrote \d+ members, library lists \d+", str(e)):
+            # not a failure of the machinery: a run of the code under test died (a sanitizer report, or the tool killed by a signal), or listed other members than the generator wrote, at a place where the check only
             # expected results (a reference run, the listing of members, ...).  An execution that dies returns nothing, so the property
             # does not hold on it; say so rather than "no verdict".
             d = V.replay_dir(pid, "died")
